@@ -51,9 +51,15 @@ func semaAcquire(addr *uint32) {
 		st.mu.Lock()
 		for {
 			v = latomic.LoadUint32(addr)
-			if v != 0 && latomic.CompareAndSwapUint32(addr, v, v-1) {
-				st.mu.Unlock()
-				return
+			if v != 0 {
+				if latomic.CompareAndSwapUint32(addr, v, v-1) {
+					st.mu.Unlock()
+					return
+				}
+				// lost the race for this unit against a concurrent acquire or
+				// release; the count may still be positive, so look again
+				// instead of going to sleep (nobody would wake us up)
+				continue
 			}
 			st.waiters++
 			st.cond.Wait(&st.mu)
